@@ -5,7 +5,9 @@
 -/
 import Model.Proto.PairLemmas
 import Model.Proto.PushLemmas
+import Model.Proto.PushQuiet
 import Model.Proto.PullLemmas
+import Model.Proto.PullQuiet
 namespace Props.C02
 open Model Model.Proto
 
@@ -60,6 +62,14 @@ theorem push_progress_partial (s : Push.State) (p : Nat) (ready : List Nat) (m :
     (hr : s.readyQ = p :: ready) (hq : s.sendQ = m :: q) : (Push.progress s).isSome = true :=
   Push.progress_enabled s p ready m q hr hq
 
+/-- PUSH progress over every history: in every reachable state no accepted message waits while a connected pipe is
+    ready, and a Send is blocked only while the send queue is full — with a positive queue length a blocked Send means
+    that no pipe is able to take a message, which is "Send completes whenever a connected peer is able to take the
+    message" for every positive queue length (queue length 0: `push_qlen0_send_parks`, finding D7) -/
+theorem push_send_blocks_only_when_nobody_can_take (s : Push.State) (h : Push.Reach s) :
+    (s.readyQ = [] ∨ s.sendQ = []) ∧ (s.parkedSend ≠ [] → s.sendCap ≤ s.sendQ.length ∧ (0 < s.sendCap → s.readyQ = [])) :=
+  Push.send_blocks_only_when_nobody_can_take s h
+
 /-- the witness: with capacity 0 a blocking Send parks although a pipe is ready (model of the current code) -/
 theorem push_qlen0_send_parks (s : Push.State) (hc : s.closed = false) (hcap : s.sendCap = 0) (hb : s.bestEffort = false)
     (hp : s.pipes ≠ []) (call c h b : String) :
@@ -80,6 +90,12 @@ theorem pull_in_order (s : Pull.State) (h : Pull.Reach s) : s.rout.Sublist s.rin
 theorem pull_per_connection_order (s : Pull.State) (h : Pull.Reach s) (p : Nat) :
     (s.rout.filter (fun x => x.1 == p)).Sublist (s.rin.filter (fun x => x.1 == p)) :=
   (pull_in_order s h).filter _
+
+/-- PULL over every history: a Recv is blocked only when nothing is there for it — no message queued, none held by a
+    receiver, none waiting to be read from any connection (the model's internal steps always run to exhaustion) -/
+theorem pull_recv_blocks_only_when_nothing_is_there (s : Pull.State) (h : Pull.Reach s) (hne : s.parkedRecv ≠ []) :
+    s.recvQ = [] ∧ s.blocked = [] ∧ s.backlog = [] :=
+  Pull.recv_blocks_only_when_nothing_is_there s h hne
 
 /-- non-vacuity: the invariant is satisfiable by states with traffic in every position -/
 example : Pair.Inv { txd := [([], [1])], inflight := some ([], [2]), sendQ := [([], [3])], enq := [([], [1]), ([], [2]), ([], [3])],
